@@ -266,6 +266,15 @@ def alias_oracle(case: dict):
         elif how == "copy":
             a_i["sub"] = sub_i; a_m["sub"] = sub_m
             a_i = a_i.copy(); a_m = a_m.copy()
+        elif how in ("ror-empty", "or-empty", "copy-then-change"):
+            # an operator / copy returns a NEW dict: changing the result does not change the operand (and vice versa)
+            a_i["sub"] = sub_i; a_m["sub"] = sub_m
+            r_i, r_m = ({} | a_i, {} | a_m) if how == "ror-empty" else ((a_i | {}, a_m | {}) if how == "or-empty" else (a_i.copy(), a_m.copy()))
+            r_i["z"] = 9; r_m["z"] = 9
+            a_i.pop("top", None); a_m.pop("top", None)
+            for name, gi, gm in (("operand", a_i, a_m), ("result", r_i, r_m)):
+                if not gen.typed_eq(gen.plain(dict(gi)), gm):
+                    return ("alias", f"{how}: after result['z'] = 9 and operand.pop('top') the SDict {name} holds {gen.plain(dict(gi))!r}, the builtin dict {gm!r}")
         if case["second"]:
             b_i.update(arg_i); b_m.update(arg_m)
         for step, (op, k, v) in enumerate(case["later"]):
@@ -589,7 +598,7 @@ def run(ctx):
         cases.append({"init": init, "ops": ops, "ordinary": True, "placeholders": False, "alias_args": True})
     # what a builtin dict shares: nested mappings changed later through another reference
     for i in range(ctx.n(60, 600)):
-        c = {"kind": "alias", "how": rng.choice(["update", "update-pairs", "ior", "or", "ctor", "setitem", "setdefault", "copy"]),
+        c = {"kind": "alias", "how": rng.choice(["update", "update-pairs", "ior", "or", "ctor", "setitem", "setdefault", "copy", "ror-empty", "or-empty", "copy-then-change"]),
              "nested_sdict": rng.random() < 0.5, "second": rng.random() < 0.4, "sub": small_tree(rng, 1),
              "later": [(rng.choice(["set", "set", "del", "update"]), pool_key(rng), rng.choice([1, "x", {"q": 1}])) for _ in range(rng.randrange(1, 4))]}
         r = oracle(c)
